@@ -1,4 +1,6 @@
 """C09 — state point corruption is always detected, never accepted, and repairable."""
+import pickle
+import copy
 import collections
 import gzip
 import json
@@ -547,6 +549,15 @@ def run_case(case, ctx):
         judge("second access to .statepoint on the same handle", d, lambda: hd.statepoint())
         judge("third access (.sp) on the same handle", d, lambda: hd.sp())
         judge(".cached_statepoint on the same handle", d, lambda: dict(hd.cached_statepoint))
+        # the handle travels on after the failed access (handed to a worker process, copied): what arrives still
+        # never reports a state point that does not hash to the directory name
+        for how, dup in (("pickle round trip", lambda h: pickle.loads(pickle.dumps(h))), ("copy.copy", copy.copy), ("copy.deepcopy", copy.deepcopy)):
+            try:
+                hp = dup(hd)
+            except Exception:
+                continue
+            judge("statepoint() through a %s of that handle" % how, d, lambda: hp.statepoint())
+            judge(".cached_statepoint through a %s of that handle" % how, d, lambda: dict(hp.cached_statepoint))
         fn_sp = os.path.join(ws, d, SP_FILE)
         before_b = _read(fn_sp)
         try:
